@@ -3,27 +3,28 @@
 (* Bounded instance of MgmtCommands!Start: the state graph of the file     *)
 (* system under every `startcomponent` invocation (Names x Wheres x        *)
 (* --js/--css/--template given or not x --force x --dry-run x --verbose),  *)
-(* explored to depth MaxDepth from each seed file system.  Every           *)
-(* transition (source file system, invocation, admitted outcomes) is       *)
-(* exported once (VIEW leaves out how it was reached) together with one    *)
-(* shortest history of invocations that leads to its source state; the     *)
-(* harness replays that history with the real command and compares the     *)
-(* last step (spec -> code).  The theorems below are checked on every      *)
-(* transition.                                                             *)
+(* explored to depth MaxDepth from each seed file system.  A state of the  *)
+(* graph is the file system (VIEW: how it was reached is left out), so     *)
+(* every (file system, invocation) pair is generated exactly once.  The    *)
+(* two action properties are evaluated by TLC on every generated           *)
+(* transition: Theorems checks what the documentation promises, Export     *)
+(* writes the transition (source file system, invocation, admitted         *)
+(* outcomes) as one JSON line together with one shortest history of        *)
+(* invocations that leads to its source state; the harness replays that    *)
+(* history with the real command and compares the last step (spec ->       *)
+(* code).                                                                  *)
 (***************************************************************************)
 EXTENDS MgmtCommands, TLC, Json, IOUtils
 
 CONSTANTS Names, Wheres, JsOpts, CssOpts, TplOpts, SeedIdx, MaxDepth
 
-VARIABLES fs, dirs,          \* the file system
-          last,              \* the transition just taken
-          pfs, pdirs,        \* the file system it was taken in
-          seed, how, depth   \* how the source state was reached (not part of the VIEW)
-mcVars == <<fs, dirs, last, pfs, pdirs, seed, how, depth>>
-View == <<fs, dirs, last, pfs, pdirs>>
+VARIABLES fs, dirs,                \* the file system
+          last,                    \* the invocation just made and the outcomes it admitted
+          seed, how, depth         \* how the state was reached
+mcVars == <<fs, dirs, last, seed, how, depth>>
+View == <<fs, dirs>>
 
 \* user files / directories present before the first invocation
-F(p) == p
 Seeds == <<
   [files |-> {}, dirs |-> {}],
   [files |-> {}, dirs |-> {<<"lib", "alpha">>}],                                  \* an empty directory of that name
@@ -39,56 +40,52 @@ Invs == {i \in [name : Names, w : Wheres, js : JsOpts, css : CssOpts, tpl : TplO
                 force : BOOLEAN, dry : BOOLEAN, verbose : BOOLEAN] : NamesDistinct(i)}
 
 MCInit == /\ seed \in SeedIdx /\ fs = SeedFs(seed) /\ dirs = SeedDirs(seed)
-          /\ last = [op |-> "init"] /\ pfs = fs /\ pdirs = dirs /\ how = <<>> /\ depth = 0
+          /\ last = [inv |-> 0, admitted |-> {}] /\ how = <<>> /\ depth = 0
 
 Step(i) == /\ depth < MaxDepth
-           /\ \E o \in Start(fs, dirs, i) :
-                /\ fs' = o.fs /\ dirs' = o.dirs
-                /\ last' = [op |-> "start", inv |-> i, admitted |-> Start(fs, dirs, i)]
-           /\ pfs' = fs /\ pdirs' = dirs /\ how' = Append(how, i) /\ depth' = depth + 1 /\ seed' = seed
+           /\ \E o \in Start(fs, dirs, i) : fs' = o.fs /\ dirs' = o.dirs
+           /\ last' = [inv |-> i, admitted |-> Start(fs, dirs, i)]
+           /\ how' = Append(how, i) /\ depth' = depth + 1 /\ seed' = seed
 
 MCNext == \E i \in Invs : Step(i)
 MCSpec == MCInit /\ [][MCNext]_mcVars
 
-(* ---- theorems (state predicates: the source state is part of the state) ---------------------- *)
-Took == last.op = "start"
-I == last.inv
-Changed == {p \in DOMAIN fs : p \notin DOMAIN pfs \/ fs[p] # pfs[p]}
+(* ---- theorems ------------------------------------------------------------------------------- *)
 WellFormed == /\ \A p \in DOMAIN fs : Ancestors(SubSeq(p, 1, Len(p) - 1)) \subseteq dirs     \* files lie in directories
               /\ DOMAIN fs \cap dirs = {}
-Theorems ==
-  /\ WellFormed
-  /\ Took =>
-     /\ DOMAIN pfs \subseteq DOMAIN fs /\ pdirs \subseteq dirs                       \* nothing is ever deleted
-     /\ I.dry => fs = pfs /\ dirs = pdirs                                            \* [S6] in every combination
-     /\ ~I.force => \A p \in DOMAIN pfs : fs[p] = pfs[p]                             \* [S5] never overwrites
-     /\ (CompDir(I) \in pdirs /\ ~I.force) => \A o \in last.admitted : o.res = "error"
-     /\ Changed \subseteq Written(I)                                                 \* exactly the documented files ...
-     /\ (DOMAIN fs \ DOMAIN pfs) \subseteq Written(I)
-     /\ dirs \ pdirs \subseteq Ancestors(CompDir(I))                                 \* ... and nothing else
-     /\ \A o \in last.admitted : o.written # {} =>
-          /\ o.written = Written(I) /\ o.res = "ok"
-          /\ LET py == o.fs[CompDir(I) \o <<PyName(I)>>] IN                          \* [S8]
-             /\ py.reg = I.name
-             /\ \A f \in {py.tpl, py.js, py.css} : CompDir(I) \o <<f>> \in DOMAIN o.fs
-     /\ VerboseIrrelevant(pfs, pdirs, I)                                             \* [S7]
-     /\ (GivesPath(I.w) \/ I.w = "B") /\ I.js = "" /\ I.css = "" /\ I.tpl = "" /\ ~I.dry /\ CompDir(I) \notin pdirs
-          /\ WhereDir(I.w) \in pdirs
-        => \A o \in last.admitted : o.written = {CompDir(I) \o <<f>> : f \in {"script.js", "style.css", "template.html",
-                                                                               I.name \o ".py"}}   \* [S3]
+
+I == last'.inv
+Adm == last'.admitted
+Changed == {p \in DOMAIN fs' : p \notin DOMAIN fs \/ fs'[p] # fs[p]}
+TheoremsA ==
+  /\ DOMAIN fs \subseteq DOMAIN fs' /\ dirs \subseteq dirs'                       \* nothing is ever deleted
+  /\ I.dry => fs' = fs /\ dirs' = dirs                                            \* [S6] in every combination
+  /\ ~I.force => \A p \in DOMAIN fs : fs'[p] = fs[p]                              \* [S5] never overwrites
+  /\ (CompDir(I) \in dirs /\ ~I.force) => \A o \in Adm : o.res = "error"
+  /\ Changed \subseteq Written(I)                                                 \* exactly the documented files ...
+  /\ dirs' \ dirs \subseteq Ancestors(CompDir(I))                                 \* ... and nothing else
+  /\ \A o \in Adm : o.written # {} =>
+       /\ o.written = Written(I) /\ o.res = "ok"
+       /\ LET py == o.fs[CompDir(I) \o <<PyName(I)>>] IN                          \* [S8]
+          /\ py.reg = I.name
+          /\ \A f \in {py.tpl, py.js, py.css} : CompDir(I) \o <<f>> \in DOMAIN o.fs
+  /\ VerboseIrrelevant(fs, dirs, I)                                               \* [S7]
+  /\ (/\ I.w # "D" /\ I.js = "" /\ I.css = "" /\ I.tpl = "" /\ ~I.dry
+      /\ CompDir(I) \notin dirs /\ WhereDir(I.w) \in dirs)
+     => \A o \in Adm : o.written = {CompDir(I) \o <<f>> :                         \* [S3]
+                                      f \in {"script.js", "style.css", "template.html", I.name \o ".py"}}
+Theorems == [][TheoremsA]_mcVars
 
 AsRows(f) == {[path |-> p, tag |-> f[p]] : p \in DOMAIN f}
-Export ==
-  \/ ~Took
-  \/ Serialize(ToJson([seed |-> seed, seedfiles |-> Seeds[seed].files, seeddirs |-> Seeds[seed].dirs,
-                       how |-> how, inv |-> I, depth |-> depth,
-                       pre |-> AsRows(pfs), predirs |-> pdirs,
-                       admitted |-> {[res |-> o.res, files |-> AsRows(o.fs), dirs |-> o.dirs,
-                                      written |-> o.written] : o \in last.admitted},
-                       devs |-> {[keys |-> a.keys,
-                                  admitted |-> {[res |-> o.res, files |-> AsRows(o.fs), dirs |-> o.dirs,
-                                                 written |-> o.written] : o \in a.admitted}] :
-                                   a \in StartDevAlts(pfs, pdirs, I)}]) \o "\n",
-               IOEnv.OUT, [format |-> "TXT", charset |-> "UTF-8",
-                           openOptions |-> <<"WRITE", "CREATE", "APPEND">>]).exitValue = 0
+AsOutcomes(S) == {[res |-> o.res, files |-> AsRows(o.fs), dirs |-> o.dirs, written |-> o.written] : o \in S}
+ExportA ==
+  Serialize(ToJson([seed |-> seed, seedfiles |-> Seeds[seed].files, seeddirs |-> Seeds[seed].dirs,
+                    how |-> how', inv |-> I, depth |-> depth',
+                    pre |-> AsRows(fs), predirs |-> dirs,
+                    admitted |-> AsOutcomes(Adm),
+                    devs |-> {[keys |-> a.keys, admitted |-> AsOutcomes(a.admitted)] :
+                                a \in StartDevAlts(fs, dirs, I)}]) \o "\n",
+            IOEnv.OUT, [format |-> "TXT", charset |-> "UTF-8",
+                        openOptions |-> <<"WRITE", "CREATE", "APPEND">>]).exitValue = 0
+Export == [][ExportA]_mcVars
 =============================================================================
